@@ -115,7 +115,36 @@ EXCEPTIONS = {
     "NotImplementedError": ("XNotImplementedError", []),
 }
 
-EXC_PATTERNS = {"KeyError": "XKeyError", "errors.InvalidSequence": "XInvalidSequence"}
+# constructor of pyexc for each exception class the source raises; `except T` catches the
+# constructors of T and of its subclasses as declared in moclo/errors.py (read by ast)
+EXC_CLASS = {"KeyError": "XKeyError", "InvalidSequence": "XInvalidSequence", "IllegalSite": "XIllegalSite",
+             "DuplicateModules": "XDuplicateModules", "MissingModule": "XMissingModule",
+             "TypeError": "XTypeError", "ValueError": "XValueError", "RuntimeError": "XRuntimeError",
+             "IndexError": "XIndexError", "ZeroDivisionError": "XZeroDivisionError",
+             "NotImplementedError": "XNotImplementedError"}
+EXC_ARITY = {"XKeyError": 1, "XDuplicateModules": 2, "XMissingModule": 1}
+BUILTIN_BASES = {"KeyError": ["LookupError"], "IndexError": ["LookupError"], "ZeroDivisionError": ["ArithmeticError"],
+                 "NotImplementedError": ["RuntimeError"]}
+
+
+def exception_bases(root):
+    """class name -> set of all ancestors, for moclo.errors and the builtins used"""
+    tree = ast.parse(open(os.path.join(root, "moclo/moclo/errors.py")).read())
+    direct = dict(BUILTIN_BASES)
+    for n in tree.body:
+        if isinstance(n, ast.ClassDef):
+            direct[n.name] = [ast.unparse(b).split(".")[-1] for b in n.bases]
+    out = {}
+
+    def anc(c, seen):
+        for b in direct.get(c, []):
+            if b not in seen:
+                seen.add(b)
+                anc(b, seen)
+        return seen
+    for c in list(direct) + list(EXC_CLASS):
+        out[c] = anc(c, set())
+    return out
 
 
 def hint_of(node):
@@ -254,9 +283,12 @@ class Fn(object):
             return b, "tt"
         hint = hint_of(e.value)
         # `ke.args` on a caught exception is handled in subscript()
-        for key in ((hint, e.attr), (None, e.attr)):
+        for key in ((ast.unparse(e.value), e.attr), (hint, e.attr), (None, e.attr)):
             if key in self.attrs:
-                b, a = self.expr(e.value)
+                if ast.unparse(e.value).startswith("super("):
+                    b, a = [], "self"
+                else:
+                    b, a = self.expr(e.value)
                 fn = self.attrs[key]
                 if isinstance(fn, tuple):       # (coq, "exc")
                     t = self.fresh()
@@ -443,6 +475,8 @@ class Fn(object):
             b, a = self.expr(x)
             bs += b
             atoms.append(a)
+        if ast.unparse(e) in self.assume:
+            return bs, "true" if self.assume[ast.unparse(e)] else "false"
         terms = []
         for i, op in enumerate(e.ops):
             l, r = atoms[i], atoms[i + 1]
@@ -740,7 +774,8 @@ class Fn(object):
 
     def ifstmt(self, s, rest, defined, fall, retwrap):
         t1, t2 = self.terminates(s.body), self.terminates(s.orelse)
-        joinable = not contains_return(s.body) and not contains_return(s.orelse) and rest and not (t1 and t2)
+        joinable = (not contains_return(s.body) and not contains_return(s.orelse) and rest and not (t1 and t2)
+                    and not (self.none_test(s.test) and (t1 or t2)))
         if joinable:
             names = self.assigned([s], defined)
             tup = self.tuple_of(names)
@@ -805,24 +840,43 @@ class Fn(object):
         return ("%s <- py_while0 fuel %s (fun %s => %sOk %s) (fun %s =>\n%s) ;;\n" % (
             pat, tup, pat, self.bind_text(bc), ac, pat, body) + cont(defined))
 
+    def handlers(self, s, defined, fall, retwrap):
+        arms = []
+        bases = self.tr.exc_bases
+        for h in s.handlers:
+            tn = ast.unparse(h.type).split(".")[-1]
+            cons = [con for cls, con in EXC_CLASS.items() if cls == tn or tn in bases.get(cls, ())]
+            if not cons:
+                raise Unsupported("except %s" % tn)
+            if h.name:
+                if cons != ["XKeyError"]:
+                    raise Unsupported("except ... as name for %s" % tn)
+                self.excvars.add(h.name)
+            hb = self.block(h.body, defined, fall, retwrap)
+            for con in sorted(set(cons)):
+                ar = EXC_ARITY.get(con, 0)
+                if h.name:
+                    args = cname(h.name)
+                else:
+                    args = " ".join(["_"] * ar)
+                arms.append("| %s %s =>\n%s" % (con, args, hb))
+        return "(fun exn_ => match exn_ with\n%s\n| _ => Err exn_ end)" % "\n".join(arms)
+
     def trystmt(self, s, defined, cont, retwrap):
-        if s.orelse or s.finalbody or contains_return(s.body):
-            raise Unsupported("try with else/finally/return")
+        if s.orelse or s.finalbody:
+            raise Unsupported("try with else/finally")
+        if self.terminates(s.body):
+            # the body always returns or raises: what follows the statement is reached
+            # from a handler only
+            body = self.block(s.body, defined, lambda d: "Err XRuntimeError", retwrap)
+            handler = self.handlers(s, defined, cont, retwrap)
+            return "py_try (\n%s)\n%s" % (body, handler)
+        if contains_return(s.body):
+            raise Unsupported("try whose body may return or fall through")
         names = self.assigned(s.body, defined)
         tup, pat = self.tuple_of(names), self.pat_of(names)
         body = self.block(s.body, defined, lambda d: "Ok %s" % tup, retwrap)
-        arms = []
-        for h in s.handlers:
-            tn = ast.unparse(h.type)
-            if tn not in EXC_PATTERNS:
-                raise Unsupported("except %s" % tn)
-            con = EXC_PATTERNS[tn]
-            if h.name:
-                self.excvars.add(h.name)
-            var = cname(h.name) if h.name else "_"
-            hb = self.block(h.body, defined, lambda d: "Ok %s" % tup, retwrap)
-            arms.append("| %s %s =>\n%s" % (con, var if con == "XKeyError" else "", hb))
-        handler = "(fun exn_ => match exn_ with\n%s\n| _ => Err exn_ end)" % "\n".join(arms)
+        handler = self.handlers(s, defined, lambda d: "Ok %s" % tup, retwrap)
         return "%s <- py_try (\n%s)\n%s ;;\n" % (pat, body, handler) + cont(defined | set(names))
 
     # -- the function ----------------------------------------------------
@@ -863,6 +917,7 @@ class Translator(object):
     def __init__(self, root):
         self.root = root
         self.generated = {}     # coq name -> dict(params, defaults, fuel)
+        self.exc_bases = exception_bases(root)
         self.trees = {}
         self.notes = []
 
